@@ -106,7 +106,7 @@ Merging can only prune: every reported violation comes from a real execution of 
 import os
 import re
 
-from mc import clock, explore, par, report
+from mc import clock, common, explore, par, report
 from mc.fingerprint import canon
 from mc.term import Term, Unsupported, strip_sgr, wrap_rows
 
@@ -732,7 +732,9 @@ def run_item(item):
         return run_nodedup(item)
     cfg, prefix, depth = item["cfg"], tuple(tuple(o) for o in item["prefix"]), item["depth"]
     spec = Spec(cfg, item["clocks"], item["opset"], prefix)
-    r = explore.explore(spec, depth, split_depth=depth, dedup=True, workers=1)
+    r = explore.explore(spec, depth, split_depth=depth, dedup=True, workers=1, max_states=(120000 if common.tier() != "thorough" else 3000000))
+    if r.capped and not r.violations:
+        raise RuntimeError("engine error: a share of C16 exceeded the state cap without any violation (state space does not converge)")
     vs = []
     for v in r.violations[:20]:
         v["case"] = {"cfg": cfg, "history": [list(o) for o in prefix] + v["case"]["history"]}
